@@ -229,6 +229,16 @@ func c02ContentCases(thorough bool) []string {
 			out = append(out, `"`+quote(a)+quote(b)+`"`, `$."`+quote(a)+quote(b)+`"`, `$"`+quote(a)+quote(b)+`"`)
 		}
 	}
+	// ordered triples over the characters whose escapes can interfere with each other
+	tri := []rune{7, '\\', 'a', 'U', '"', 0x1f600, 0xe0001, 'u', '0', '{', 0x7f, 'x', 'b', 0x10ffff}
+	for _, a := range tri {
+		for _, b := range tri {
+			for _, c := range tri {
+				q := quote(a) + quote(b) + quote(c)
+				out = append(out, `"`+q+`"`, `$."`+q+`"`, `$"`+q+`"`, `$ like_regex "`+q+`" flag "q"`)
+			}
+		}
+	}
 	// .** bounds and regex flags
 	bounds := []string{"0", "1", "2", "3", "last", "4294967294", "4294967295", "4294967296"}
 	for _, a := range bounds {
